@@ -368,5 +368,30 @@ PROPS["C20"] = {
     "shrink": False,
 }
 
+PROPS["C10"] = {
+    "id": "C10",
+    "lean_modules": ["JT.Props.C10", "JT.Props.C03", "JT.Props.C05", "JT.Props.C02"],
+    "extractors": [],
+    "functional_ops": ["hostile"],
+    "rule": ("real server subprocesses: the attachment server (five dialects, default file handler, scratch cwd), the JT808 server with default handlers and with README-style handlers that Parse+String every body. "
+             "astream: hand-made adversarial attachment streams (connect-and-close, lone delimiter/marker, chunk before announcement, 0x1212 before any chunk, impossible chunk lengths/offsets, empty chunk, unknown file, 255-byte names, empty/short/garbage control bodies, "
+             "foreign IDs, re-announcement, ends mid-file/mid-header/mid-frame, HLJ name length 255), valid upload sessions, 8 kinds of mutation of them (bit flips, truncation, dropped/duplicated/reordered pieces, extreme 4-byte fields, inserted garbage, special bytes), "
+             "every stream cut into random writes; the stage sequence seen by the server's file handler and the end status are compared with the Lean model. "
+             "hostile: the same streams plus, for the JT808 server, fragment attacks (package number 0, beyond the total, total 0/65535), every supported ID with bodies of 0..1023 random bytes, 2019 layout, unknown IDs, mutated random conversations; "
+             "each x a way to end (close, reset, half-close, stay open) with a witness session established BEFORE the hostile client: afterwards the witness must be served correctly (heartbeat answered with the right serial / upload completes byte-exactly reported), "
+             "a NEW connection must be accepted and served, the process must be alive. non-trivial = every case."),
+    "technique": "Lean 4 proof that no byte stream makes the modelled connection loops reach an out-of-range access or nil dereference (checked accessors with an explicit panic outcome; induction over reads and rounds) + the model executed against the real attachment server + hostile streams x close points with witness sessions on both real servers",
+    "level_text": ("Machine-checked Lean 4 theorems: for EVERY byte stream, EVERY partition into reads and every dialect the attachment connection loop (classification chunk/control frame, chunk headers incl. the length-prefixed HLJ one, 0x1210/0x1211/0x1212 parsers, record bookkeeping) "
+                   "never reaches an out-of-range slice/index, always hands the default file handler an event whose dereferenced fields are present, consumes bytes in every round (the loop terminates; the fuel of the model is never the limit), and at worst fails the session; "
+                   "for the JT808 server packageParse.parse (frame extraction, decoder, sub-package bookkeeping incl. package number 0 and numbers beyond the total, re-request tick) has no panic outcome from any state on any read, over any sequence of reads; the modelled body decoders have none on any body (C03). "
+                   "Partial: the models cover the byte-level logic; Go runtime behaviour (goroutines, socket errors, resets, memory growth when a peer announces a huge chunk and never sends it — the server buffers without bound, see DESIGN.md) and the un-modelled body decoders are covered by execution against the real servers with witness sessions on every run."),
+    "level_note": "Trusted: Lean kernel; hand models with checked accessors tied by sampled socket runs (stage sequences equal on every run); sysd/sock harness; witness oracle.",
+    "trusted_base": [KERNEL, AXIOMS, HARNESS, _SOCK_TB[3],
+                     "models lean/JT/Model/AttStream.lean (attachment connection loop, control-frame parsers, what fileEvent.OnEvent dereferences) and lean/JT/Model/Parse.lean: every slice/index/dereference goes through an accessor that yields `panic` where Go would",
+                     "not modelled: goroutine scheduling, net.Conn errors, time-outs, memory exhaustion, handlers' String() methods, decoders without a Lean model (executed with -parse-all instead)"],
+    "assumptions": ["a panic can only arise from an out-of-range slice/index or nil dereference in the modelled code (no explicit panic calls, no integer division, no type assertions in these paths)", "64-bit int: header length + uint32 chunk length does not overflow"],
+    "shrink": False,
+}
+
 # properties that are not claimed, with the reason (anything not listed and not in PROPS gets a generic "not built yet")
 NOT_APPLICABLE = {}
